@@ -25,3 +25,10 @@ chk("C21", "exploration", "exhaustive product of boundary timestamps/thresholds 
 chk("C31", "exploration", "small-scope exhaustive enumeration of dot lists and inputs plus boundary products and full-segment sweeps against exact big-integer interpolation",
     "All dot lists of length 0-3 over coordinates 0..6 with all x in 0..7; all 2-3 dot lists over the range-extreme alphabet; every x of segments with chosen dX (up to 10^6+1, thorough 3*10^6) and dY; plateau, exactness at dots, min-1 <= f <= max, tolerance |dY|/1e6+2 and rejection of invalid lists are checked on each.",
     "All 2^64 inputs cannot be enumerated; coverage is the three stated finite domains.", "E4; DESIGN §4 C31")
+
+chk("C29", "model_checking", "explicit-state BFS of the full reachable state graph of the real caches (replay shortest path + 1 op) against a list model",
+    "States are canonical cache contents (ordered (key,value,weight) list + capacities); every operation of a ~100-op alphabet is executed in every reachable state of both simplewlru.Cache and wlru.Cache from every initial capacity; return values, key order, totals, bounds and the per-operation eviction callbacks are compared with a list model after every step.",
+    "Alphabet: 3 keys, 2 values, weights {0,1,2,5}, capacities up to (7,3). Dedup key soundness argued in the evidence file (the cache has no state beyond it).", "E2; DESIGN §7 C29")
+chk("C27", "model_checking", "bounded-depth exhaustive enumeration of open/close/drop sequences on the real producers over a counting backend, against a refcount model",
+    "Every sequence over {open,close,drop} x {a,b} up to depth 7 (quick) / 9 (thorough) for both Wrap and WrapAll; same-store identity, backend open/close counts per instance at every step, over-close errors and the drop bound are compared with a per-name reference-count model.",
+    "Stale handles (all opens closed, name re-opened since) are not re-used: use-after-close is outside the statement.", "E2; DESIGN §7 C27")
